@@ -29,6 +29,8 @@ mod crashrun;
 mod storrun;
 #[cfg(agdb_verif)]
 mod concrun;
+#[cfg(agdb_verif)]
+mod storedrun;
 
 use std::collections::BTreeMap;
 use std::io::Write;
@@ -324,6 +326,25 @@ fn main() {
             write_lines(&format!("{}/oracle.txt", out), &o.oracle);
             o.stats.insert("histories".into(), o.histories);
             write_stats(&format!("{}/stats.json", out), &o.stats, o.steps, o.nontrivial, &o.samples);
+        }
+        #[cfg(agdb_verif)]
+        "stored" => {
+            // C05, database level: load_db (extracted) on the raw records of real files; --n histories, --steps max queries per history
+            let steps: usize = arg(&args, "--steps", "25").parse().unwrap();
+            let mut o = storedrun::Out::new();
+            let mut r = rng::Rng::new(seed);
+            for i in 0..n {
+                let mut hr = r.fork();
+                storedrun::run_history(&mut hr, &out, i, steps, &mut o);
+            }
+            write_lines(&format!("{}/cases.txt", out), &o.cases);
+            write_lines(&format!("{}/impl.txt", out), &o.imp);
+            write_lines(&format!("{}/hist.txt", out), &o.hist);
+            write_lines(&format!("{}/oracle.txt", out), &o.oracle);
+            o.stats.insert("histories".into(), o.histories);
+            o.stats.insert("records".into(), o.records);
+            let ev = o.cases.len() as u64;
+            write_stats(&format!("{}/stats.json", out), &o.stats, ev, o.nontrivial, &o.samples);
         }
         _ => {
             eprintln!("unknown command {}", cmd);
